@@ -1,3 +1,4 @@
+import FlowRecordProofs.Lemmas.PackIgnore
 import FlowRecordProofs.Lemmas.Msgpack
 import FlowRecordProofs.Lemmas.Framing
 import FlowRecordProofs.Lemmas.MsgpackPrefix
@@ -206,3 +207,17 @@ example : ∀ st' frames, writeAll WState.init [StreamExample.o1, StreamExample.
 -- non-vacuity of C04_failing_or_short_write: the second call (the header blob) of a two-frame stream accepts 3 bytes
 example : diskAfterFault (writeCalls [[1, 2, 3, 4, 5], [6]]) 1 3 = [0, 0, 0, 5, 1, 2, 3] := by decide
 example : diskAfterFault (writeCalls [[1, 2], [6]]) 9 0 = streamOf [[1, 2], [6]] := by decide
+
+
+/-- THE COMPARISON-IGNORE CONFIGURATION CONCERNS == AND hash() ONLY: whatever configuration is in force
+    (FLOW_RECORD_IGNORE, `set_ignored_fields_for_comparison`, a `with ignore_fields_for_comparison(...)` block around a
+    de-duplicating producer), the frames a writer emits hold complete records: the packer asks `Record._pack` to leave out nothing.
+    Premises: the regenerated source facts (`Gen.recordPackReadsGlobalIgnore`, `recordPackExcludedDefault`,
+    `packerPassesExcluded`). -/
+theorem C04_ignore_configuration_never_reaches_the_writer (globalIg : List (List Nat))
+    (names : List (List Nat)) {α : Type} (vals : List α) (h : names.length = vals.length) :
+    FlowRecord.Equality.packerExcluded globalIg = [] ∧
+    FlowRecord.Equality.keep (FlowRecord.Equality.packerExcluded globalIg) names vals = vals := by
+  refine ⟨FlowRecord.Equality.packerExcluded_nil globalIg, ?_⟩
+  rw [FlowRecord.Equality.packerExcluded_nil globalIg]
+  exact FlowRecord.Equality.keep_nil names vals h
